@@ -141,6 +141,22 @@ def gen_cases(seed: int, deep: bool) -> List[Dict[str, Any]]:
                         add(t, key, ("S", VC.good_elem(rng, vk)), tag="D")
                     else:
                         add(t, key, ("L", "gen", good), tag="D")
+    # D2. slice shapes of struct arrays (top level and inside a nested struct-array element) and of a nested int array
+    pts2 = [None, -5, -4, -3, -2, -1, 0, 1, 2, 3, 4, 5]
+    for t in [a for a in arrs if a["field"] in ("sa", "ai4", "a_u64", "ad4") and (a["cls"] == "O" or a["field"] in ("sa", "a_u64", "ad4"))]:
+        _, cls, vk, n = t["fty"]
+        for a in pts2:
+            for b in pts2:
+                for st in (None, 1, 2, -1, -2, 3, -3, 0):
+                    if not deep and rng.random() < 0.5:
+                        continue
+                    ln = len(range(*slice(a, b, st).indices(n))) if st != 0 else rng.randrange(0, n + 1)
+                    good = [VC.good_elem(rng, vk) for _ in range(ln)]
+                    add(t, ("slice", a, b, st), VC.seq_value(rng, vk, good, kind=rng.choice(["list", "tuple", "carray"])), tag="D2")
+                    if ln > 0 and rng.random() < 0.4:
+                        xs = list(good)
+                        xs[rng.randrange(ln)] = rng.choice(VC.bad_elems(vk))
+                        add(t, ("slice", a, b, st), ("L", "list", xs), tag="D2")
     # E. wrong lengths, strings / bytes as sequences
     for t in arrs:
         _, cls, vk, n = t["fty"]
@@ -175,6 +191,15 @@ def gen_cases(seed: int, deep: bool) -> List[Dict[str, Any]]:
                 raw = b"".join(__import__("struct").pack("<f", rng.choice([1.5, -2.0, 0.0, 3e38, 1e-40])) for _ in range(dn))
             add(t, ("whole",), ("A", dcls, dvk, dn, raw), tag="F")
             add(t, ("slice", None, None, None), ("A", dcls, dvk, dn, raw), tag="F")
+            if dvk in VC.FKS:
+                # float arrays of another message holding inf / NaN / subnormals (copied as they are by `msg.a = other.a`,
+                # checked element by element when they go through a slice)
+                pk = "<f" if dvk == "f32" else "<d"
+                specials = [float("inf"), -float("inf"), float("nan"), 1e-45, -0.0, 3.0e38, 2.5]
+                raw2 = b"".join(__import__("struct").pack(pk, rng.choice(specials)) for _ in range(dn))
+                add(t, ("whole",), ("A", dcls, dvk, dn, raw2), tag="F")
+                add(t, ("slice", None, None, None), ("A", dcls, dvk, dn, raw2), tag="F")
+                add(t, ("slice", 0, dn, 1), ("A", dcls, dvk, dn, raw2), tag="F")
             add(t, ("whole",), ("A", dcls, dvk, dn, None), tag="F")
         add(t, ("whole",), ("A", cls, vk, n, None), tag="F")
         add(t, ("whole",), ("A", cls, vk, n + 1, None), tag="F")
@@ -317,7 +342,10 @@ def _feed(res: C.Result, cases: List[Dict[str, Any]], start: int):
             ex["disabled_partial_writes_seen"] = ex.get("disabled_partial_writes_seen", 0) + 1
         rc = {"case": _pack(case), "protocol": blk}
         for d in r["corr"]:
-            res.corr_diffs.append({"name": "corr:M4/setField", "diff": d, "case": rc})
+            proj = "readField" if "[readField]" in d else "message" if "[message]" in d else "canon" if "[canon]" in d else "setField"
+            ex.setdefault("corr_diffs_by_projection", {}).setdefault(proj, 0)
+            ex["corr_diffs_by_projection"][proj] += 1
+            res.corr_diffs.append({"name": "corr:M4/" + proj, "diff": d, "case": rc})
         for v in r["props"].get(PROP, []):
             if v.startswith("fail"):
                 cl = v[5:]
@@ -376,8 +404,9 @@ def run(res: C.Result, deep: bool):
     res.rule = ("A: every scalar field (top level and through nested structs / struct arrays) x boundary and wrong-type pool; "
                 "B: every index -n-1..n of every array x element pool; C: one bad element at every position of arrays of "
                 "length 1..6 (floats also surrounded by / next to NaN); D: every slice (start, stop, step) shape of three "
-                "6-arrays with right / wrong length and bad elements; E: wrong lengths, str/bytes/generators/ctypes arrays as "
-                "sequences; F: other messages' array objects (bound / unbound, same / other shape); G: the same stores with "
+                "6-arrays with right / wrong length and bad elements; D2: slice shapes of struct arrays, of arrays inside nested "
+                "structs / struct-array elements; E: wrong lengths, str/bytes/generators/ctypes arrays as "
+                "sequences; F: other messages' array objects (bound / unbound, same / other shape, float arrays holding inf / NaN / subnormals); G: the same stores with "
                 "validation disabled (correspondence only); H: seeded random over the synthetic classes and every class of "
                 "pyrtma.core_defs; CTX: every well-nested enter/exit(normal|exception) history up to %d events. "
                 "distinct by (class, path, field, key, value, enabled, prefill)" % (8 if deep else 6))
